@@ -4,6 +4,14 @@
 #include <libTMCG.hh>
 #include "runner.hh"
 #include "simunicast.hh"
+#include "stackunicast.hh"
+// fraction of full-stack runs: one in 16; one in 96 in the sanitizer flavour, where a run with n*n real
+// endpoints costs seconds (allocation and poisoning of their buffers)
+#if defined(__SANITIZE_ADDRESS__)
+#define FULLSTACK_ONE_IN 96
+#else
+#define FULLSTACK_ONE_IN 16
+#endif
 #include <stdexcept>
 #include <algorithm>
 #include <memory>
@@ -26,7 +34,7 @@ struct Bcast { size_t sender; std::string chan; size_t seq; };
 struct PartyState
 {
 	bool byz;
-	std::unique_ptr<SimUnicast> aiou;
+	std::unique_ptr<aiounicast> aiou;
 	std::unique_ptr<CachinKursawePetzoldShoupRBC> rbc;
 	size_t sp;                                    // script pointer
 	std::vector<int> path;                        // entered channel names
@@ -44,8 +52,11 @@ struct World
 	size_t n, t;
 	int fifo_skip, dmode;
 	std::vector<ScriptStep> script;
+	std::unique_ptr<FdTable> fdt;                                    // (declared before P: the endpoints in P refer to them
+	std::unique_ptr<Stack> stack;                                    //  until they are destroyed)
 	std::vector<PartyState> P;
 	std::unique_ptr<Net> net;
+	bool fullstack;                                                  // real aiounicast_select over simulated descriptors
 	RunResult res;
 	std::map<std::string, Bcast> bcast_index;                       // honest payload -> origin
 	std::map<std::string, std::map<size_t, size_t> > bcast_count;   // chan -> sender -> count so far
@@ -293,15 +304,20 @@ static bool deliver_attempt(World &W, size_t p, int mode, size_t from)
 	W.actions++;
 	try
 	{
+		// over the real byte layer a zero-time-out call reads the visible bytes of a link or parses one integer of
+		// a tuple: one attempt is up to 14 such calls, i.e. about one protocol message, as over the stub
+		int reps = W.fullstack ? 14 : 1;
 		if (mode == 0)
 		{
-			got = ps.rbc->Deliver(m, who, aiounicast::aio_scheduler_roundrobin, 0);
+			for (int r = 0; r < reps && !got; r++)
+				got = ps.rbc->Deliver(m, who, aiounicast::aio_scheduler_roundrobin, 0);
 			if (got) record_delivery(W, p, who, m, "any");
 		}
 		else
 		{
 			from = from % W.n;
-			got = ps.rbc->DeliverFrom(m, from, aiounicast::aio_scheduler_roundrobin, 0);
+			for (int r = 0; r < reps && !got; r++)
+				got = ps.rbc->DeliverFrom(m, from, aiounicast::aio_scheduler_roundrobin, 0);
 			if (got) record_delivery(W, p, from, m, "from");
 		}
 	}
@@ -544,6 +560,13 @@ static Plan rbc_generate(uint64_t seed, const Tier &tier)
 	p.cfg["byzprof"] = (int64_t)g.below(5 * 5);   // profile per byz party (two digits base 5)
 	p.cfg["fifo_skip"] = g.chance(1, 10) ? (int64_t)g.range(1, 3) : 0;
 	p.cfg["dmode"] = (int64_t)g.below(3);       // 0 Deliver only, 1 DeliverFrom only, 2 mixed
+	{
+		// full stack (own stream): bit 0 on, bit 1 authenticated, bit 2 units handed over in two pieces
+		Rng gs(derive(seed, 77)); int64_t fs = 0;
+		if (tier.opt.count("fullstack") ? atoi(tier.opt.find("fullstack")->second.c_str()) != 0 : gs.chance(1, FULLSTACK_ONE_IN))
+		{ fs = 1; if (gs.chance(1, 2)) fs |= 2; if (gs.chance(2, 3)) fs |= 4; }
+		p.cfg["fullstack"] = fs;
+	}
 	bool faults = (tier.opt.count("nofaults") == 0) && !g.chance(1, 8);
 	// ---- script
 	int steps = (int)g.range(3, tier.thorough ? 16 : 12);
@@ -621,6 +644,15 @@ static RunResult rbc_execute(const Plan &plan)
 	W.dmode = (int)plan.get("dmode", 0);
 	int64_t byzmask = plan.get("byzmask", 0);
 	W.net.reset(new Net(&W.S, W.n, false));
+	int64_t fsb = plan.get("fullstack", 0);
+	W.fullstack = (fsb & 1) != 0;
+	if (W.fullstack)
+	{
+		W.fdt.reset(new FdTable()); W.fdt->activate();
+		W.stack.reset(new Stack(W.net.get(), W.fdt.get(), (fsb & 2) != 0, false, false, "tmcgsim-rbc", true));
+		if (fsb & 4) W.stack->frag_num = 48;
+		W.res.cnt["probe.fullstack_runs"]++;
+	}
 	W.P.resize(W.n);
 	W.byz_profile.assign(W.n, 0);
 	size_t nb = 0;
@@ -631,7 +663,8 @@ static RunResult rbc_execute(const Plan &plan)
 		if (W.P[i].byz) { W.byz_profile[i] = (int)(prof % 5); prof /= 5; nb++; }
 		W.P[i].fifo_stack.push_back(1);
 		W.S.single_party = (int)i;
-		W.P[i].aiou.reset(new SimUnicast(W.net.get(), i));
+		if (W.fullstack) W.P[i].aiou.reset(new StackUnicast(W.stack.get(), i, aiounicast::aio_timeout_very_long));
+		else W.P[i].aiou.reset(new SimUnicast(W.net.get(), i));
 		W.P[i].rbc.reset(new CachinKursawePetzoldShoupRBC(W.n, W.t, i, W.P[i].aiou.get(),
 			aiounicast::aio_scheduler_roundrobin, aiounicast::aio_timeout_none, (size_t)W.fifo_skip));
 	}
@@ -841,6 +874,15 @@ static RunResult rbc_execute(const Plan &plan)
 	W.res.cnt["probe.fifo_skip_adjust"] += count_substr(err, "adjust deliver sequence");
 	W.res.cnt["probe.drain_rounds"] += rounds;
 	W.res.cnt["probe.units_sent"] += W.net->units_sent;
+	if (W.fullstack)
+	{
+		W.res.cnt["probe.fullstack_bytes_delivered"] += W.stack->bytes_released;
+		W.res.cnt["probe.fullstack_integers_framed"] += W.stack->frames;
+		W.res.cnt["probe.fullstack_integers_checked_against_model"] += W.stack->n_checked;
+		W.res.cnt["fault.stack_unit_in_two_pieces"] += W.stack->n_partial;
+		if (!W.stack->violation.empty() && W.res.ok())
+			W.res.violate("C13", "fullstack_channel", "rbc:fullstack_channel", "transport of the broadcast: " + W.stack->violation + " [auth=" + std::to_string((int)W.stack->auth) + "]");
+	}
 	W.res.fingerprint = W.S.hist.h;
 	W.res.steps = W.actions + W.net->units_handed;
 	W.res.sim_ms = W.S.now_ms;
@@ -869,7 +911,7 @@ int main(int argc, char **argv)
 	Scenario sc;
 	sc.name = "rbc";
 	sc.real_components = "src/CachinKursawePetzoldShoupSEABP.cc (Broadcast, Deliver, DeliverFrom, setID/unsetID/recoverID), mpz_shash, mpz_srandom, libgmp, libgcrypt hash";
-	sc.stub_components = "aiounicast_select replaced by SimUnicast (in-memory per-link FIFO of integers, harness-controlled hand-over); wall clock; entropy (seeded PRNG behind gcry_* random entry points); Byzantine parties played by a real RBC instance behind a mutating link filter plus harness message injection";
+	sc.stub_components = "aiounicast_select replaced by SimUnicast (in-memory per-link FIFO of integers, harness-controlled hand-over) except in full-stack runs (probe.fullstack_runs; 1 of 8 by default), where the real aiounicast_select frames every integer and a hand-over makes the bytes of one unit visible - optionally only up to an arbitrary byte for one receive call; wall clock; entropy (seeded PRNG behind gcry_* random entry points); Byzantine parties played by a real RBC instance behind a mutating link filter plus harness message injection";
 	sc.rule = "one case = seeded plan (n,t,Byzantine set and profile, channel script with nested/recovered IDs, 0..900 schedule ops: hand-over of one in-flight message on a chosen link, one Deliver/DeliverFrom step at a chosen party, script step, Byzantine injection, partition/heal) followed by a fault-free drain phase; distinct = distinct history fingerprint (hash over every send, hand-over, step and delivered value); non-trivial = at least one message was handed over or a fault fired";
 	sc.generate = rbc_generate;
 	sc.execute = rbc_execute;
